@@ -10,7 +10,7 @@
 //     have a frame inside the library (C19).  Built with -race the same scenarios are the
 //     failing-input search of C20.
 //
-// usage: blackbox -scenario prio2|simple2|prio1|simple1|join|limit|faulty|dynamic|all -tier T -out DIR
+// usage: blackbox -scenario prio2|simple2|prio1|simple1|join|limit|alone|faulty|dynamic|all -tier T -out DIR
 package main
 
 import (
@@ -31,6 +31,16 @@ type bb struct {
 	r   *rand.Rand
 	mu  sync.Mutex
 	cur string // scenario family being run: the replay of a failure re-runs that family
+	// goroutines already reported as leaked: reported once, not waited for again
+	reported map[string]bool
+	counts   map[string]int
+}
+
+// cycle: the modes of a scenario are taken in turn, so that even the quick tier runs each
+func (b *bb) cycle(name string, n int) int {
+	v := b.counts[name]
+	b.counts[name]++
+	return v % n
 }
 
 func (b *bb) fail(format string, args ...any) {
@@ -39,15 +49,13 @@ func (b *bb) fail(format string, args ...any) {
 	b.w.Fail(format+" [replay: note "+b.cur+" seed="+fmt.Sprint(px.Seed())+"]", args...)
 }
 
-// note records one scenario run: reply `ok` unless it produced monitor failures.
+// note records one scenario run in the request stream (the model answers `ok`): what was
+// run, for the evidence; monitor failures travel separately, tagged with their property.
 func (b *bb) note(name string, desc string, before int) {
 	b.mu.Lock()
 	defer b.mu.Unlock()
-	rep := "ok"
-	if len(b.w.Monitor) > before || b.w.Stats["monitor_fail"] > before {
-		rep = "fail"
-	}
-	b.w.Case(name, true, "note "+name+" "+strings.ReplaceAll(desc, " ", "_"), rep)
+	_ = before
+	b.w.Case(name, true, "note "+name+" "+strings.ReplaceAll(desc, " ", "_"), "ok")
 }
 
 func (b *bb) fails() int {
@@ -66,6 +74,13 @@ func (b *bb) leakProbe(what string) {
 		n := runtime.Stack(buf, true)
 		leaked := ""
 		for _, g := range strings.Split(string(buf[:n]), "\n\n") {
+			id := g
+			if k := strings.Index(g, " ["); k > 0 {
+				id = g[:k]
+			}
+			if b.reported[id] {
+				continue
+			}
 			if strings.Contains(g, "github.com/akramarenkov/cqos") && !strings.Contains(g, "verifharness/cmd/blackbox.(*bb).leakProbe") {
 				// goroutines of the harness that merely call into the library do not exist
 				// once a scenario is over
@@ -81,6 +96,9 @@ func (b *bb) leakProbe(what string) {
 			lines := strings.Split(last, "\n")
 			if len(lines) > 7 {
 				lines = lines[:7]
+			}
+			if k := strings.Index(last, " ["); k > 0 {
+				b.reported[last[:k]] = true
 			}
 			b.fail("C19 after %s a goroutine of the library is still alive: %s", what, strings.Join(lines, " | "))
 			return
@@ -105,10 +123,10 @@ func main() {
 		os.Exit(2)
 	}
 	w := px.NewWriter(*out)
-	b := &bb{w: w, r: rand.New(rand.NewSource(px.Seed()))}
+	b := &bb{w: w, r: rand.New(rand.NewSource(px.Seed())), reported: map[string]bool{}, counts: map[string]int{}}
 	reps := *n
 	if reps == 0 {
-		reps = 6
+		reps = 7 // >= the number of modes of any scenario (see cycle)
 		if *tier == "thorough" {
 			reps = 60
 		}
@@ -163,6 +181,9 @@ func main() {
 	}()
 	for i := 0; i < reps; i++ {
 		progress <- struct{}{}
+		if b.fails() >= 25 {
+			break // enough failing inputs; the rest of the run would only repeat them
+		}
 		if all || want["prio2"] {
 			b.cur = "prio2"
 			b.scenarioPrio2()
@@ -186,6 +207,10 @@ func main() {
 		if all || want["limit"] {
 			b.cur = "limit"
 			b.scenarioLimit()
+		}
+		if all || want["alone"] {
+			b.cur = "alone"
+			b.scenarioAlone()
 		}
 		if all || want["faulty"] {
 			b.cur = "faulty"
